@@ -39,6 +39,14 @@ func genC14(r *rt.Rand, tier string, idx int) *world.Scenario {
 		sc.Class = "competing-candidates+tikv-get-request-fault"
 		sc.Extra = map[string]int64{"tikv_get_fault": int64(1 + r.Intn(12))}
 	}
+	if idx%5 != 4 && idx%4 == 2 {
+		// the commit of a lock write fails without having been applied: plainly, or with an answer that says
+		// "outcome unknown" - the candidate has not acquired anything
+		sc.Class += "+lost-lock-commit"
+		for i := 0; i < 1+r.Intn(2); i++ {
+			sc.Plan = append(sc.Plan, &simkv.Fault{Op: "commit", Class: "lock", Nth: 1 + r.Intn(8), Effect: []string{"uncertain-lost", "err"}[r.Intn(2)]})
+		}
+	}
 	nc := 2 + r.Intn(2)
 	for c := 0; c < nc; c++ {
 		var cl world.Client
